@@ -38,6 +38,10 @@ def corpus_cases(cfg) -> list[dict]:
             add(s, "exec", "data:" + n)
             for lay, s2 in corpus.layouts(s):
                 add(s2, "exec", f"data:{n}:{lay}")
+    for i, s in enumerate(corpus.layout_seeds()):
+        add(s, "exec", f"layseed{i}")
+        for lay, s2 in corpus.layouts(s):
+            add(s2, "exec", f"layseed{i}:{lay}")
     hv = corpus.harvested()
     step = max(1, len(hv) // cfg["hv"])
     for h in hv[::step]:
